@@ -50,7 +50,7 @@ IntervalEvOK(e) == /\ e.res = "ok"
 HeteroOK(e) == e.res = "ok" /\ e.panics = 0 /\ e.mesh /\ e.removals = 0
 LateJoinOK(e) == e.res = "ok" /\ e.panics = 0 /\ e.removals = 0
 \* a peer that fell silent at ts is removed, with its routes, exactly at the first housekeeping tick after
-\* last refresh + own timeout, and re-dialled
+\* last refresh + the node's OWN timeout (whatever the peer advertises and however rarely it announced), and re-dialled
 SilenceOK(e) == /\ e.res = "ok" /\ e.last_refresh <= e.ts
                 /\ e.removed_at = e.last_refresh + e.T + 1
                 /\ e.routes_gone /\ e.redialled
